@@ -11,11 +11,20 @@ import (
 var c25Sizes map[proto.Message]int
 
 // c25Size replaces proto.Size under the engine: an arbitrary non-negative size per item.
-func c25Size(m proto.Message) int { return c25Sizes[m] }
+func c25Size(m proto.Message) int {
+	if C25SizeHook != nil {
+		return C25SizeHook(m)
+	}
+	return c25Sizes[m]
+}
+
+// C25SizeHook lets the gRPC sender harness (package server) choose message sizes.
+var C25SizeHook func(m proto.Message) int
 
 // Chunker: concatenation of chunks = items in order; a chunk exceeds the budget only if it is a
 // single item; no empty chunk except a possible first one.
 func H_C25_chunker() {
+	C25SizeHook = nil
 	c25Sizes = map[proto.Message]int{}
 	n := verifrt.Concretize(verifrt.IntRange("items", 0, verifrt.Param("items", 3, 4)))
 	items := make([]*wrapperspb.Int32Value, n)
